@@ -382,6 +382,39 @@ theorem declareFault_c (env : Env) (T : List (Nat × Nat)) (c : Nat) :
         "Source handler: every fault callback ever delivered is of the kind the fault handler table configures\n"
         "for its condition (C14).",
         extra_imports="import CfdpVerif.Lemmas.StdDo", params="(T : List (Nat × Nat))")
+    SEQ_DEF = '''/-- the transaction sequence numbers of the Transaction indications issued so far, in order -/
+def txSeqs (l : List Ind) : List Nat :=
+  l.filterMap fun i => match i with
+    | .tx tid _ => some tid.seq.val
+    | _ => none
+
+@[simp] theorem txSeqs_append (l m : List Ind) : txSeqs (l ++ m) = txSeqs l ++ txSeqs m := by
+  simp [txSeqs, List.filterMap_append]
+
+@[simp] theorem txSeqs_tx (t : Tid) (o : Option Tid) : txSeqs [.tx t o] = [t.seq.val] := rfl
+@[simp] theorem txSeqs_eofSent (t : Tid) : txSeqs [.eofSent t] = [] := rfl
+@[simp] theorem txSeqs_finished (t : Option Tid) (p : FinishedParams) : txSeqs [.finished t p] = [] := rfl
+
+/-- a statement `Q` about the sequence number provider and the sequence numbers issued so far -/
+def Dep (_ : Env) (Q : SeqProv → List Nat → Prop) (s : SrcSt) : Prop := Q s.prov (txSeqs s.inds)
+'''
+    EMIT_SEQ = '''theorem emitInd_d (env : Env) (Q : SeqProv → List Nat → Prop) (i : Ind) (h : ∀ t o, i ≠ .tx t o) :
+    Preserves (Dep env Q) (emitInd i) := by
+  unfold emitInd
+  refine Preserves.modify (fun s hs => ?_)
+  have : txSeqs [i] = [] := by
+    cases i <;> first | rfl | exact absurd rfl (h _ _)
+  simp only [Dep, txSeqs_append, this, List.append_nil] at hs ⊢
+  exact hs'''
+    nt = "emitInd_d env Q _ (by intro t o h; cases h)"
+    seq_only = [t[0] for t in SOURCE if t[0] not in ("transactionStart", "fsmNonIdle", "stateMachine")]
+    files["InvSourceSeq.lean"] = gen(
+        "Source", "Seq", "Dep", "d", SEQ_DEF, "simp_all [Dep]", {"emitInd": EMIT_SEQ},
+        {"emitInd:eofsent": nt, "emitInd:finished": nt},
+        "Source handler: every method except `_transaction_start` (and its callers) leaves the sequence\n"
+        "number provider and the list of sequence numbers issued so far alone — stated as the preservation of\n"
+        "an arbitrary statement `Q` about the two (C19).", only=seq_only,
+        params="(Q : SeqProv → List Nat → Prop)")
     for n, t in files.items():
         (OUT / n).write_text(t)
         print("wrote", n)
